@@ -1,12 +1,14 @@
 #!/bin/bash
-# RUSTC_WRAPPER for the "function-entry seam" build of the simulator (nightly):
-# the library crates under test are compiled with -Zinstrument-mcount, which
-# makes every function entry in them (also of functions that get inlined) call
-# `mcount` — defined by the simulator (sim/src/exec.rs) as a scheduling point.
-# The simulator crate is instrumented too, because the library's generic code
-# (`Quantity::fmt`, `Unit::fmt`, `Rate`'s Display) is monomorphised there; the
-# runtime crate `fnseam-rt`, which defines `mcount`, and all other crates are
-# compiled normally.
+# RUSTC_WRAPPER for the instrumented ("f64-fnseam") build of the simulator (nightly):
+# the library crates under test and the simulator crate (where the library's
+# generic `fmt` code is monomorphised) are compiled with ThreadSanitizer's
+# compile-time instrumentation but WITHOUT its runtime:
+#   -Zsanitizer=thread -Zexternal-clangrt -Cunsafe-allow-abi-mismatch=sanitizer
+# The functions that instrumentation calls (`__tsan_func_entry`, `__tsan_atomic*`,
+# `__tsan_read*`/`__tsan_write*` ...) are provided by the un-instrumented runtime
+# crate sim/fnseam-rt: function entries and every atomic operation become
+# scheduling points of the simulator, plain memory accesses are no-ops.
+# All other crates are compiled normally.
 rustc=$1; shift
 name=""
 prev=""
@@ -15,6 +17,6 @@ for a in "$@"; do
   prev=$a
 done
 case "$name" in
-  quantities|astronomical_quantities|fpdec|fpdec_core|qsim) exec "$rustc" "$@" -Zinstrument-mcount ;;
+  quantities|astronomical_quantities|fpdec|fpdec_core|qsim) exec "$rustc" "$@" -Zsanitizer=thread -Zexternal-clangrt -Cunsafe-allow-abi-mismatch=sanitizer ;;
   *) exec "$rustc" "$@" ;;
 esac
